@@ -30,6 +30,21 @@ type Obligation struct {
 	Status    Status   `json:"status"`
 	Detail    string   `json:"detail,omitempty"`
 	Path      []string `json:"path,omitempty"` // CFG / call-graph path for path rules
+	// OnlyFor restricts the obligation to some of the rule's properties (empty: all).
+	OnlyFor []string `json:"only_for,omitempty"`
+}
+
+// AppliesTo reports whether the obligation counts for the property.
+func (o Obligation) AppliesTo(prop string) bool {
+	if len(o.OnlyFor) == 0 {
+		return true
+	}
+	for _, p := range o.OnlyFor {
+		if p == prop {
+			return true
+		}
+	}
+	return false
 }
 
 // Known is one line of KNOWN_FINDINGS.txt.
